@@ -342,7 +342,25 @@ def oracle(case, obs):
 # ----------------------------------------------------------------------------- Gallina
 
 def coq_hexbytes(s):
-    return coq_bytes(unh(s))
+    """bytes literal; runs of >= 200 equal bytes are written as HttpLine.rep_byte (no huge list literals)"""
+    b = unh(s)
+    if len(b) < 2000:
+        return coq_bytes(b)
+    parts, i, lit = [], 0, bytearray()
+    while i < len(b):
+        j = i
+        while j < len(b) and b[j] == b[i]:
+            j += 1
+        if j - i >= 200:
+            if lit:
+                parts.append(coq_bytes(bytes(lit))); lit = bytearray()
+            parts.append(f"(HttpLine.rep_byte {b[i]}%N {j - i}%N)")
+        else:
+            lit += b[i:j]
+        i = j
+    if lit:
+        parts.append(coq_bytes(bytes(lit)))
+    return "(" + " ++ ".join(parts) + ")"
 
 
 def coq_parms(p):
